@@ -951,12 +951,12 @@ def judge_simpl(rr, cases):
             v['class'] = 'collapse' if c.get('collapse') else ('repair' if not all(c.get('unit_valid', [])) else 'plain')
             if not sub_ok:
                 if v['class'] == 'repair' or (v['class'] == 'collapse' and not all(c.get('unit_valid', []))):
-                    v.update(status='known', fid='F20', why='GEOSSimplify_r repaired a self-intersecting simplified polygon with buffer(0): output vertices %s are not input vertices' % g['subset'][2:120])
+                    v.update(status='known', fid='C18-K1', why='GEOSSimplify_r repaired a self-intersecting simplified polygon with buffer(0): output vertices %s are not input vertices' % g['subset'][2:120])
                 else:
                     v.update(status='violation', why='output vertices are not a subset of the input vertices: ' + g['subset'][:200])
             elif not near_ok:
                 if v['class'] in ('collapse', 'repair'):
-                    v.update(status='known', fid='F21', why='GEOSSimplify_r removed a collapsed ring / repaired area: input vertices %s %s are farther than the tolerance from the result' % (g['nearL'][2:80], g['nearR'][2:80]))
+                    v.update(status='known', fid='C18-K2', why='GEOSSimplify_r removed a collapsed ring / repaired area: input vertices %s %s are farther than the tolerance from the result' % (g['nearL'][2:80], g['nearR'][2:80]))
                 else:
                     v.update(status='violation', why='input vertices farther than the tolerance (2*tol for rings) from the simplified geometry: %s %s' % (g['nearL'][:120], g['nearR'][:120]))
             elif all(k == 'L' for k, b in cin) and not geom_ok:
@@ -1223,7 +1223,9 @@ def judge_cov(rr, cases):
                 a_out = sum(abs(area2(p[0])) - sum(abs(area2(h)) for h in p[1:]) for p in uo)
                 s_in = sum(abs(area2(p[0])) - sum(abs(area2(h)) for h in p[1:]) for e in ein for p in e)
                 s_out = sum(abs(area2(p[0])) - sum(abs(area2(h)) for h in p[1:]) for e in eout for p in e)
-                nb_in = len([p for pg in ui for r in pg for p in r]); nb_out = len([p for pg in uo for r in pg for p in r])
+                # number of removed vertices (counted per polygon, so never below the number removed from the union's boundary;
+                # GEOSCoverageUnion_r may start / split the boundary rings differently, its own vertex counts are not comparable)
+                nb_in, nb_out = nin, min(nin, nout)
                 T2 = t2_of(c['tol'])
                 if a_in != s_in:
                     why = 'input: area of GEOSCoverageUnion_r differs from the sum of polygon areas (%s vs %s, doubled)' % (a_in, s_in)
@@ -1394,13 +1396,13 @@ def run(ctx):
         return
     rr = R(ctx, drv, hexe)
     q = ctx.quick
-    for name, f in [('dpl', lambda: stream_dpl(ctx, rr, 4000 if q else 30000)),
+    for name, f in [('dpl', lambda: stream_dpl(ctx, rr, 4000 if q else 60000)),
                     ('dp', lambda: stream_simpl(ctx, rr, 2000 if q else 12000, 'dp', ['DP'])),
                     ('tp', lambda: stream_simpl(ctx, rr, 2000 if q else 12000, 'tp', ['TP'])),
                     ('dbl', lambda: stream_simpl(ctx, rr, 800 if q else 5000, 'dbl', ['DP', 'TP'], doubles=True)),
                     ('derived', lambda: stream_derived(ctx, rr, 200 if q else 1500)),
-                    ('hull', lambda: stream_hull(ctx, rr, 1500 if q else 10000)),
-                    ('cov', lambda: stream_cov(ctx, rr, 800 if q else 6000))]:
+                    ('hull', lambda: stream_hull(ctx, rr, 1500 if q else 30000)),
+                    ('cov', lambda: stream_cov(ctx, rr, 800 if q else 15000))]:
         f()
         ctx.log('stream %s done: %d evaluations so far, %d violations' % (name, ctx.cov['evaluations'], len(ctx.violations)))
     ctx.cov['traces_validated_against_impl'] = ctx.cov['evaluations']
